@@ -1074,10 +1074,17 @@ func (m *clusterImpl) Do(line string) string {
 			return "ok"
 		}
 	case "sync":
-		deadline := time.Now().Add(clusterSettle)
+		// The settle budget counts the time in which this loop itself got to run.  When the process or
+		// the machine is stalled (memory pressure, a burst of other work) the gap between two polls is far
+		// longer than the poll period, and the node goroutines did not run in that gap either: such a
+		// gap counts for at most 50 ms, up to a hard limit of five settle times on the wall clock.
+		var used, longest time.Duration
+		start := time.Now()
+		last := start
+		hard := start.Add(5 * clusterSettle)
 		why := ""
 		stable := 0
-		for time.Now().Before(deadline) {
+		for used < clusterSettle && last.Before(hard) {
 			ok, w := m.settled()
 			why = w
 			if ok {
@@ -1089,9 +1096,19 @@ func (m *clusterImpl) Do(line string) string {
 				stable = 0
 			}
 			time.Sleep(2 * time.Millisecond)
+			now := time.Now()
+			gap := now.Sub(last)
+			last = now
+			if gap > longest {
+				longest = gap
+			}
+			if gap > 50*time.Millisecond {
+				gap = 50 * time.Millisecond
+			}
+			used += gap
 		}
 		if m.c != nil {
-			m.c.Stats.Notes = append(m.c.Stats.Notes, "sync: "+why)
+			m.c.Stats.Notes = append(m.c.Stats.Notes, fmt.Sprintf("sync: %s (waited %d ms on the wall clock, longest gap between two polls %d ms)", why, time.Since(start).Milliseconds(), longest.Milliseconds()))
 		}
 		return "lag"
 	case "filter": // filter <k> <hex name,hex name,...>: the databases node k replicates when it is a replica (takes effect at its next start)
